@@ -416,10 +416,30 @@ def rule_orderins(ctx) -> None:
                     truncs.append((n, x.value, x))
                 if isinstance(x, ast.Call) and (dotted(x.func) or "").split(".")[-1] in ("nlargest", "nsmallest") and len(x.args) >= 2:
                     truncs.append((n, x.args[1], x))
+    # names that hold (a view of) the observed items: the parameter, whatever is computed from them, and containers filled
+    # inside a loop over them (a map keyed by id, a kept-list)
+    derived: Set[str] = {fn.params[2]}
+    for _ in range(6):
+        before = len(derived)
+        for d in rd.all_defs:
+            if d.value is not None and d.name not in derived and any(isinstance(y, ast.Name) and y.id in derived for y in ast.walk(d.value)):
+                derived.add(d.name)
+        for lp in [x for x in walk_no_defs(fn.node) if isinstance(x, ast.For) and any(isinstance(y, ast.Name) and y.id in derived for y in ast.walk(x.iter))]:
+            for st in lp.body:
+                for y in ast.walk(st):
+                    if isinstance(y, (ast.Assign, ast.AugAssign)):
+                        for t in (y.targets if isinstance(y, ast.Assign) else [y.target]):
+                            if isinstance(t, ast.Subscript) and isinstance(t.value, ast.Name) and rd.is_local(t.value.id):
+                                derived.add(t.value.id)
+                    if isinstance(y, ast.Call) and isinstance(y.func, ast.Attribute) and y.func.attr in ("append", "add", "setdefault", "extend") and isinstance(y.func.value, ast.Name) and rd.is_local(y.func.value.id):
+                        derived.add(y.func.value.id)
+        if len(derived) == before:
+            break
+    derived -= {"edges", "gstore"}
     n_checked = 0
     for n, operand, whole in truncs:
         sl = rd.slice([operand], n)
-        if fn.params[2] not in sl.params:  # not derived from `items`
+        if fn.params[2] not in sl.params and not any(isinstance(y, ast.Name) and y.id in derived for y in ast.walk(operand)):  # not derived from `items`
             continue
         n_checked += 1
         key = f"{fn.qual}/truncate:{src(whole)[:30]}"
@@ -432,6 +452,13 @@ def rule_orderins(ctx) -> None:
             ctx.holds("C18.ORDERINS", key, fn.loc(whole), "truncates sorted(., key=(-score, id))")
             continue
         if not isinstance(operand, ast.Name):
+            inner = operand
+            while isinstance(inner, ast.Call) and dotted(inner.func) in ("list", "tuple") and inner.args:
+                inner = inner.args[0]
+            if isinstance(inner, ast.Call) and isinstance(inner.func, ast.Attribute) and inner.func.attr in ("items", "keys", "values") and isinstance(inner.func.value, ast.Name) and inner.func.value.id in derived:
+                ctx.violation("C18.ORDERINS", key, fn.loc(whole), f"`{src(whole)[:50]}` cuts a map of the observed items in its insertion order - the order in which the items were listed: which items "
+                              "survive depends on the listing")
+                continue
             ctx.undecided("C18.ORDERINS", key, fn.loc(whole), f"truncation of `{src(operand)[:40]}`")
             continue
         X = operand.id
@@ -508,7 +535,8 @@ def rule_orderins(ctx) -> None:
                         if isinstance(y, ast.AugAssign) and isinstance(y.target, ast.Subscript) and src(y.target.value) == D:
                             return False
                         for v in vals:
-                            free = {z.id for z in ast.walk(v) if isinstance(z, ast.Name)} - {"max", "min", "float", D}
+                            prevs = {a.targets[0].id for s3 in lp.body for a in ast.walk(s3) if isinstance(a, ast.Assign) and len(a.targets) == 1 and isinstance(a.targets[0], ast.Name) and D in src(a.value)}
+                            free = {z.id for z in ast.walk(v) if isinstance(z, ast.Name)} - {"max", "min", "float", D, "None"} - prevs
                             if not free <= tn:
                                 return False
             return True
@@ -598,9 +626,13 @@ def _keyed_folds(ctx, fn: Func) -> None:
             return True
         return False
 
-    def commutative(v: ast.AST, D: str) -> bool:
-        # max(old, new) / min(..) where `old` reads the map being filled
-        return isinstance(v, ast.Call) and dotted(v.func) in ("max", "min") and any(isinstance(z, (ast.Subscript, ast.Call)) and D in src(z) for a in v.args for z in ast.walk(a))
+    def commutative(v: ast.AST, D: str, prevs: Set[str] = frozenset()) -> bool:
+        # max(old, new) / min(..) where `old` reads the map being filled (directly, or through a local bound to such a read);
+        # also `new if old is None else max(old, new)`
+        if isinstance(v, ast.IfExp):
+            return commutative(v.body, D, prevs) or commutative(v.orelse, D, prevs)
+        return isinstance(v, ast.Call) and dotted(v.func) in ("max", "min") and any(
+            (isinstance(z, (ast.Subscript, ast.Call)) and D in src(z)) or (isinstance(z, ast.Name) and z.id in prevs) for a in v.args for z in ast.walk(a))
 
     for lp in [x for x in walk_no_defs(fn.node) if isinstance(x, ast.For)]:
         hn = cfg.node_containing(lp.target)
@@ -621,7 +653,9 @@ def _keyed_folds(ctx, fn: Func) -> None:
                 if isinstance(y, ast.Assign):
                     for t in y.targets:
                         if isinstance(t, ast.Subscript) and isinstance(t.value, ast.Name) and not isinstance(t.slice, ast.Slice) and any(isinstance(z, ast.Name) and z.id in tn for z in ast.walk(t.slice)) \
-                                and any(isinstance(z, ast.Name) and z.id in tn for z in ast.walk(y.value)) and not commutative(y.value, t.value.id) and rd.is_local(t.value.id):
+                                and any(isinstance(z, ast.Name) and z.id in tn for z in ast.walk(y.value)) and rd.is_local(t.value.id) \
+                                and not commutative(y.value, t.value.id, {a.targets[0].id for s3 in lp.body for a in ast.walk(s3) if isinstance(a, ast.Assign) and len(a.targets) == 1 and isinstance(a.targets[0], ast.Name)
+                                                                          and t.value.id in src(a.value)}):
                             # guarded `if k not in d:` = first wins; unguarded = last wins; both depend on the listing
                             bad = bad or (y, "keeps the value of whichever duplicate is listed last (or first, under a `not in` guard)")
                 if isinstance(y, ast.If) and any(isinstance(z, ast.Continue) for z in y.body) and isinstance(y.test, ast.Compare) and len(y.test.ops) == 1 and isinstance(y.test.ops[0], ast.In) \
